@@ -48,7 +48,8 @@ Definition all_flags : list string :=
       "global_config_option_ignored"; "dry_config_option_merges_section_only";
       "pyproject_unparsable_swallowed"; "wrong_type_swallowed";
       "language_block_error_retried_without_language"; "invalid_top_level_value_shadowed_by_language_block";
-      "thailint_json_is_not_a_root_marker"].
+      "thailint_json_is_not_a_root_marker"; "non_mapping_language_block_crashes"]
+  ++ map (fl "language_block_value_not_validated") units ++ map (fl "non_mapping_section_crashes") units.
 
 (* ------------------------------------------------------------------ dictionaries *)
 Fixpoint get (k : string) (d : dict) : option val :=
@@ -324,6 +325,37 @@ Definition find_section (r : lrow) (cfg : dict) : option dict :=
   | (_, ks, w) => first_present ks w cfg
   end.
 
+Fixpoint assoc_s {A} (k : string) (l : list (string * A)) : option A :=
+  match l with [] => None | (k', v) :: r => if String.eqb k k' then Some v else assoc_s k r end.
+
+(* a value that is not a mapping where a mapping is expected (`nesting: 5`, `nesting: {python: [1]}`) *)
+Definition nonmap (v : option val) : bool := match v with Some (VMap _) => false | Some _ => true | None => false end.
+
+Fixpoint first_nonmap (keys : list string) (cfg : dict) : bool :=
+  match keys with
+  | [] => false
+  | k :: r => match get k cfg with Some v => nonmap (Some v) | None => first_nonmap r cfg end
+  end.
+
+(* the entry the rule finds as its section is not a mapping *)
+Definition section_nonmap (r : lrow) (cfg : dict) : bool :=
+  match r with
+  | (SrcNone, _, _) => false
+  | (SrcCtx, ks, _) => if context_has_config_attr then first_nonmap ks cfg else false
+  | (_, ks, _) => first_nonmap ks cfg
+  end.
+
+(* rules that hand the entry to from_dict without testing its type call `.get` on it: AttributeError *)
+Definition section_crash (q : quirks) (u : string) (r : lrow) (cfg : dict) : bool :=
+  has q (fl "non_mapping_section_crashes" u) && smem u section_type_unchecked && section_nonmap r cfg.
+
+(* from_dict dereferences the block of the file's language (`config[language].get`) resp. fixed language
+   blocks (dry: config.get("python", {}).get) without testing the type *)
+Definition lang_block_crash (q : quirks) (u : string) (sect : dict) (lang : string) : bool :=
+  has q "non_mapping_language_block_crashes"
+  && ((smem u lang_block_unchecked_own && nonmap (get lang sect))
+      || existsb (fun l => nonmap (get l sect)) (match assoc_s u lang_block_unchecked_fixed with Some l => l | None => [] end)).
+
 (* ------------------------------------------------------------------ option resolution (from_dict) *)
 Fixpoint assoc {A} (k : string) (l : list (string * A)) : option A :=
   match l with [] => None | (k', v) :: r => if String.eqb k k' then Some v else assoc k r end.
@@ -400,18 +432,22 @@ Inductive probe :=
 | PNotIn (m opt : string)         (* metric not in the allowed list *)
 | PRange (m allowed mx : string)  (* range(metric): not allowed and not 0 <= metric <= max *)
 | PSwitchOn (m opt : string)      (* construct present and detector switched on *)
-| PSwitchOff (m opt : string).    (* construct present and allowance switched off *)
+| PSwitchOff (m opt : string)     (* construct present and allowance switched off *)
+| POr (a b : probe)               (* one violation when either condition holds (srp: one report per class) *)
+| PAnd (a b : probe).             (* one violation when both conditions hold (dry: long enough and often enough) *)
 
 Definition unit_probes (u : string) : list probe :=
   if String.eqb u "nesting" then [PGt "depth" "max_nesting_depth"]
-  else if String.eqb u "srp" then [PGt "methods" "max_methods"]
-  else if String.eqb u "dry" then [PGe "dup_lines" "min_duplicate_lines"]
+  else if String.eqb u "srp" then [POr (PGt "methods" "max_methods") (PGt "loc" "max_loc")]
+  else if String.eqb u "dry" then [PAnd (PGe "dup_lines" "min_duplicate_lines") (PGe "occurrences" "min_occurrences")]
   else if String.eqb u "magic-numbers" then [PNotIn "value" "allowed_numbers"; PRange "range_arg" "allowed_numbers" "max_small_integer"]
   else if String.eqb u "print-statements" then [PAlways "print"; PSwitchOff "main_print" "allow_in_scripts"]
   else if String.eqb u "improper-logging" then [PAlways "print"; PSwitchOff "main_print" "allow_in_scripts"]
   else if String.eqb u "method-property" then [PLe "body_statements" "max_body_statements"]
   else if String.eqb u "stateless-class" then [PGe "methods" "min_methods"]
   else if String.eqb u "collection-pipeline" then [PGe "continues" "min_continues"]
+  else if String.eqb u "stringly-typed" then [PAnd (PGe "occurrences" "min_occurrences")
+                                                   (PAnd (PGe "values" "min_values_for_enum") (PLe "values" "max_values_for_enum"))]
   else if String.eqb u "file-header" then [PAlways "no_header"]
   else if String.eqb u "lazy-ignores" then [PAlways "noqa"]
   else if String.eqb u "lbyl" then [PSwitchOn "dict_key_check" "detect_dict_key"]
@@ -424,7 +460,7 @@ Definition unit_probes (u : string) : list probe :=
 
 Definition zmem (z : Z) (l : list Z) : bool := existsb (Z.eqb z) l.
 
-Definition fires (opts : list (string * dval)) (res : string -> option val) (ms : list (string * Z)) (p : probe) : bool :=
+Fixpoint fires (opts : list (string * dval)) (res : string -> option val) (ms : list (string * Z)) (p : probe) : bool :=
   let oi o := as_int (res o) (default_of opts o) in
   let ob o := as_bool (res o) (default_of opts o) in
   let ol o := as_ints (res o) (default_of opts o) in
@@ -440,6 +476,8 @@ Definition fires (opts : list (string * dval)) (res : string -> option val) (ms 
                      end
   | PSwitchOn m o => match assoc m ms with Some _ => ob o | None => false end
   | PSwitchOff m o => match assoc m ms with Some _ => negb (ob o) | None => false end
+  | POr a b => fires opts res ms a || fires opts res ms b
+  | PAnd a b => fires opts res ms a && fires opts res ms b
   end.
 
 Inductive outcome := Exit2 | Ran (n : nat).
@@ -482,6 +520,23 @@ Definition unit_outcome (opts : list (string * dval)) (gs : list grow) (probes :
   | StType => if retry_t then second else if swallow then Ran 0 else Exit2
   end.
 
+(* dry: the values of the language blocks are stored in fields of their own (python_min_occurrences ...) that
+   __post_init__ never looks at: only the top-level values are validated, the block's value is used as it is
+   (a non-number there fails when it is compared, at the end of the run: exit 2) *)
+Definition unit_outcome_unvalidated (opts : list (string * dval)) (gs : list grow) (probes : list probe) (swallow : bool)
+           (res res_top : string -> option val) (fname : string) (ms : list (string * Z)) : outcome :=
+  match guard_status opts gs res_top with
+  | StValue => Exit2
+  | StType => if swallow then Ran 0 else Exit2
+  | StOk => match guard_status opts gs res with
+            | StType => Exit2
+            | _ => Ran (unit_body opts probes res fname ms)
+            end
+  end.
+
+Definition lang_unvalidated (q : quirks) (u : string) : bool :=
+  has q (fl "language_block_value_not_validated" u) && smem u lang_values_unvalidated.
+
 Definition swallow_types (q : quirks) : bool := if has q "wrong_type_swallowed" then other_errors_swallowed else false.
 (* load_linter_config: `except <retry_exceptions>: config_class.from_dict(config_dict)` *)
 Definition retries (q : quirks) (u exc : string) : bool :=
@@ -496,7 +551,14 @@ Definition run (q : quirks) (c : case) : outcome :=
     if existsb (String.eqb (c_fname c)) (repo_patterns q c) then Ran 0 else
     let cfg := apply_overrides q cli_overrides (c_cmd c) (c_overrides c) cfg0 in
     let u := c_unit c in
-    let sect := match find_section (lookup_row q u) cfg with Some s => s | None => [] end in
+    let row := lookup_row q u in
+    let sect := match find_section row cfg with Some s => s | None => [] end in
+    if section_crash q u row cfg || lang_block_crash q u sect (c_lang c)
+    then (if swallow_types q then Ran 0 else Exit2) else
+    if lang_unvalidated q u
+    then unit_outcome_unvalidated (unit_opts q u) (guards_of guards u) (unit_probes u) (swallow_types q)
+                 (opt_lookup (lang_opts q u) sect (c_lang c)) (opt_lookup [] sect (c_lang c)) (c_fname c) (c_metrics c)
+    else
     unit_outcome (unit_opts q u) (guards_of guards u) (unit_probes u)
                  (retries q u "ValueError") (retries q u "TypeError") (swallow_types q) (checks_top q)
                  (opt_lookup (lang_opts q u) sect (c_lang c)) (opt_lookup [] sect (c_lang c)) (c_fname c) (c_metrics c)
@@ -579,7 +641,7 @@ Definition doc_lang_opts (u : string) : list string :=
   else if String.eqb u "magic-numbers" then ["max_small_integer"; "allowed_numbers"]
   else if String.eqb u "print-statements" then ["allow_in_scripts"; "console_methods"]
   else if String.eqb u "improper-logging" then ["allow_in_scripts"; "console_methods"]
-  else if String.eqb u "dry" then ["min_duplicate_lines"]
+  else if String.eqb u "dry" then ["min_occurrences"; "min_duplicate_lines"]
   else if String.eqb u "stringly-typed" then ["ignore"; "enabled"; "min_occurrences"; "min_values_for_enum"; "max_values_for_enum";
                                               "require_cross_file"; "allowed_string_sets"; "exclude_variables"]
   else [].
@@ -654,7 +716,8 @@ Definition spec (c : case) : outcome :=
 
 (* ------------------------------------------------------------------ domain of the theorems *)
 (* the unit is a documented one, the command is the unit's (or a library run without CLI options), sections
-   and language sub-sections are mappings is not required (non-mappings count as empty on both sides) *)
+   and language sub-sections need not be mappings (a non-mapping counts as absent in the specification: the linter
+   runs with the remaining values / its defaults) *)
 Definition case_good (c : case) : bool :=
   smem (c_unit c) units
   && (String.eqb (c_cmd c) (cmd_of (c_unit c)) || (String.eqb (c_cmd c) "" && match c_overrides c with [] => true | _ => false end)).
